@@ -65,7 +65,9 @@ func (e *Engine) Extra() map[string]any {
 }
 
 var strPieces = []string{"", "a", "x y", "\r\n\r\n", "Content-Length: 5\r\n\r\n{}", "\"", "\\", "é", "世界", "😀", "\u0000", "<&>", "\n", "\r", " ", "/path/to/file.wa", "0",
-	"\u2028", "\u2029", "\u007f", "\u0080", "\U0010FFFF", "\uFFFD", "\t", "\b\f", "</script>", "\\u0041", "{\"a\":1}", "Content-Length: 0\r\n\r\n"}
+	"\u2028", "\u2029", "\u007f", "\u0080", "\U0010FFFF", "\uFFFD", "\t", "\b\f", "</script>", "\\u0041", "{\"a\":1}", "Content-Length: 0\r\n\r\n",
+	// every printable ASCII punctuation character, and the ones that are special to formatters and templates
+	"!\"#$%&'()*+,-./:;<=>?@[\\]^_`{|}~", "%", "%%", "100% done", "%d %s %v", "${x}", "{{.}}", "\x1b[0m"}
 
 func genString(t *tape.Tape) string {
 	n := t.Pick(3, 4, 2, 1)
